@@ -441,6 +441,13 @@ fn make_mutants(ctx: &Ctx, idx: u64) -> Vec<Mutant> {
     let donor_text = if corp.is_empty() { text.clone() } else { rng.pick(corp).text.clone() };
     let donor = sexp::parse(&donor_text).unwrap_or_default();
     let parsed = sexp::parse(&text);
+    if idx % 16 == 5 {
+        // a case of template/variable-hostile texts instead of mutants
+        for m in 0..MUTANTS_PER_CASE {
+            out.push(Mutant { text: template_hostile(&mut rng), files: vec![], via_file: m % 5 == 0, desc: "template-hostile".into() });
+        }
+        return out;
+    }
     for m in 0..MUTANTS_PER_CASE {
         let via_file = rng.chance(1, 6);
         let mut files2 = files.clone();
@@ -480,6 +487,40 @@ fn make_mutants(ctx: &Ctx, idx: u64) -> Vec<Mutant> {
         out.push(Mutant { text: t, files: files2, via_file, desc });
     }
     out
+}
+
+/// Hostile uses of deftemplate / template-expand / defvar: expansion heads and names supplied
+/// through parameters, self reference, concat-built names, conditionals on odd values.
+fn template_hostile(rng: &mut Rng) -> String {
+    const ARGS: &[&str] = &["t!", "template-expand", "a", "b", "$x", "$y", "()", "(t! a 1)", "(t! b t!)", "(concat t !)", "(concat \"t\" \"!\")", "1", "\"\"", "if-equal", "(if-equal a a x)", "deftemplate", "$a", "@a", "x", "y", "(x)", "((x))"];
+    const BODIES: &[&str] = &[
+        "($x a $x)", "($x b $y)", "$x", "($x)", "(t! $x $y)", "(template-expand $x $y)", "((concat t !) a $x)", "(if-equal $x $y (t! a $x))", "(if-not-equal $x $y $x)",
+        "(if-in-list $x ($y a b) ($x a $x))", "(defalias $x $y)", "(defvar $x $y)", "(deflayer $x $y)", "($x $y $x $y)", "(t! b $x $x)", "(if-equal $x t! ($x a $x))",
+    ];
+    let mut s = String::from("(defsrc a)\n(deflayer base a)\n");
+    let nt = 1 + rng.usize(3);
+    let names = ["a", "b", "c"];
+    for i in 0..nt {
+        let nb = 1 + rng.usize(2);
+        let bodies: Vec<&str> = (0..nb).map(|_| *rng.pick(BODIES)).collect();
+        let params = *rng.pick(&["(x)", "(x y)", "(x x)", "()", "(x y z)"]);
+        s.push_str(&format!("(deftemplate {} {} {})\n", names[i], params, bodies.join(" ")));
+    }
+    for _ in 0..(1 + rng.usize(3)) {
+        let n = *rng.pick(&names[..nt]);
+        let na = rng.usize(4);
+        let args: Vec<&str> = (0..na).map(|_| *rng.pick(ARGS)).collect();
+        let head = *rng.pick(&["t!", "template-expand"]);
+        if rng.chance(1, 4) {
+            s.push_str(&format!("(deflayer l2 ({head} {n} {}))\n", args.join(" ")));
+        } else {
+            s.push_str(&format!("({head} {n} {})\n", args.join(" ")));
+        }
+    }
+    if rng.chance(1, 3) {
+        s.push_str(&format!("(defvar x {} y {})\n", rng.pick(ARGS), rng.pick(ARGS)));
+    }
+    s
 }
 
 fn systematic_cases(corpus_len: usize) -> u64 {
